@@ -90,6 +90,31 @@ def sweep(tier: str) -> Sweep:
                     sw.check(got is want, "^ does not denote the documented set", {"cls": c, "v": str(v), "expr": expr, "op": "^", "clause": "denotation"}, want, got)
                 except Exception as e:  # noqa: BLE001
                     sw.check(False, "match raised on a well-formed expression", {"cls": c, "v": str(v), "expr": expr, "op": "^", "clause": "no-exception"}, "a bool", f"{type(e).__name__}: {e}")
+        # an operand that carries a tag: the upper bound is still the plain next release, so the pre-releases of the
+        # bound are inside the range and the bound itself is not
+        tags = {"base": [""], "sem": ["", "-rc1", "-alpha.2", "-1", "-rc2", "-zz"], "pkg": ["", "rc1", "a2", ".post1", ".dev3", "rc2", "rc1.dev3"]}[c]
+        for (a, b_, z) in [(1, 2, 3), (0, 2, 3), (0, 0, 3), (1, 2, 0), (1, 0, 0)]:
+            for tw in tags:
+                w = parse_ok(cls, f"{a}.{b_}.{z}{tw}")
+                if w is None:
+                    continue
+                for op, bnd in (("^", bound_caret(cls, w)), ("~=", bound_tilde(cls, w)), ("~", bound_tilde(cls, w))):
+                    rels = {(a, b_, z), (bnd.major, bnd.minor, bnd.patch), (a, b_, z + 1)}
+                    for rel in sorted(rels):
+                        for tv in tags:
+                            sv = "%d.%d.%d%s" % (*rel, tv)
+                            v = parse_ok(cls, sv)
+                            if v is None:
+                                continue
+                            expr = op + str(w)
+                            want = bool(w <= v and v < bnd)
+                            case = {"cls": c, "v": sv, "expr": expr, "op": op, "clause": "denotation"}
+                            sw.note(["tagged", c, sv, expr], op)
+                            try:
+                                got = v.match(expr)
+                                sw.check(got is want, f"{op} with a tagged operand does not denote the documented set", case, want, got)
+                            except Exception as e:  # noqa: BLE001
+                                sw.check(False, "match raised on a well-formed expression", {**case, "clause": "no-exception"}, "a bool", f"{type(e).__name__}: {e}")
         # wildcards
         for x, y in itertools.product(NUMS, NUMS):
             for expr, lo, hi in ((f"{x}.*", (x, 0, 0), (x + 1, 0, 0)), (f"{x}.{y}.*", (x, y, 0), (x, y + 1, 0))):
